@@ -150,6 +150,109 @@ theorem dc_every_byte_authenticated (b b' : List Nat) (c c' : CryptoCall)
   have : c' ≠ c := fun e => hne (dc_every_byte_authenticated_datagram b' b c (e ▸ hb') hb)
   simp [idealOpen, this]
 
+/-! ### genuine packets are accepted — and nothing else is
+
+  `…SealCall i` is what the sealing side fed to the primitive when it produced `encode i`. The
+  receiver's call for `encode i` is exactly that call (so the ideal primitive accepts), for every
+  kind including probes and retransmissions in either packet space. -/
+
+theorem dc_genuine_accepted_datagram (i : DatagramIn) (wf : DatagramWF i) (hkp : i.keyPhase = false) :
+    datagramCallOfWire (encodeDatagram i) = some (datagramSealCall i) := genuine_accepted_datagram i wf hkp
+
+theorem dc_genuine_accepted_control (i : ControlIn) (wf : ControlWF i) :
+    controlCallOfWire (encodeControl i) = some (controlSealCall i) := genuine_accepted_control i wf
+
+theorem dc_genuine_accepted_secret (i : SecretIn) (wf : SecretWF i) :
+    secretCallOfWire i.kind (encodeSecret i) = some (secretSealCall i) := genuine_accepted_secret i wf
+
+/-- application packets and probes (not retransmitted; awslc keys are always key phase zero) -/
+theorem dc_genuine_accepted_stream (i : StreamIn) (wf : StreamWF i) (hkp : i.keyPhase = false) (hrel : i.relOffset = 0)
+    (hprobe : i.recovery = true → i.payload = []) :
+    streamCallOfWire false (encodeStream i) = some (streamSealCall i none) :=
+  genuine_accepted_stream i wf hkp hrel hprobe
+
+/-- retransmissions: offset k > 0, either packet space; `remove_retransmit` undoes exactly what
+    `retransmit` did (mask, recovery bit, offset field) -/
+theorem dc_genuine_accepted_stream_retx (i : StreamIn) (wf : StreamWF i) (hkp : i.keyPhase = false)
+    (hrel : i.streamId.reliable = true) (hk : i.relOffset > 0) :
+    streamCallOfWire true (encodeStream i) = some (streamSealCall i (some (i.pn, i.pn + i.relOffset))) :=
+  genuine_accepted_stream_retx i wf hkp hrel hk
+
+/-- ACTED UPON IFF AUTHENTIC (datagrams): with the sealer having produced exactly `encodeDatagram i`,
+    a datagram `b` passes the ideal AEAD iff it is byte-for-byte that packet. -/
+theorem dc_acted_upon_iff_authentic_datagram (i : DatagramIn) (wf : DatagramWF i) (hkp : i.keyPhase = false)
+    (b : List Nat) (c : CryptoCall) (hb : datagramCallOfWire b = some c) :
+    idealOpen [datagramSealCall i] (.ok c) = .ok () ↔ b = encodeDatagram i := by
+  have hg := genuine_accepted_datagram i wf hkp
+  constructor
+  · intro h
+    have hc : c = datagramSealCall i := by
+      by_cases e : c = datagramSealCall i
+      · exact e
+      · simp [idealOpen, e] at h
+    exact dc_every_byte_authenticated_datagram b _ _ (hc ▸ hb) hg
+  · intro h
+    subst h
+    rw [hg] at hb
+    cases hb
+    simp [idealOpen]
+
+/-- ACTED UPON IFF AUTHENTIC (StaleKey): the packet that can advance a sender's key id -/
+theorem dc_acted_upon_iff_authentic_stale_key (i : SecretIn) (wf : SecretWF i) (hk : i.kind = .staleKey)
+    (b : List Nat) (c : CryptoCall) (hb : secretCallOfWire .staleKey b = some c) :
+    idealOpen [secretSealCall i] (.ok c) = .ok () ↔ b = encodeSecret i := by
+  have hg := genuine_accepted_secret i wf
+  rw [hk] at hg
+  constructor
+  · intro h
+    have hc : c = secretSealCall i := by
+      by_cases e : c = secretSealCall i
+      · exact e
+      · simp [idealOpen, e] at h
+    exact dc_every_byte_authenticated_stale_key b _ _ (hc ▸ hb) hg
+  · intro h
+    subst h
+    rw [hg] at hb
+    cases hb
+    simp [idealOpen]
+
+/-- ACTED UPON IFF AUTHENTIC (control packets) -/
+theorem dc_acted_upon_iff_authentic_control (i : ControlIn) (wf : ControlWF i)
+    (b : List Nat) (c : CryptoCall) (hb : controlCallOfWire b = some c) :
+    idealOpen [controlSealCall i] (.ok c) = .ok () ↔ b = encodeControl i := by
+  have hg := genuine_accepted_control i wf
+  constructor
+  · intro h
+    have hc : c = controlSealCall i := by
+      by_cases e : c = controlSealCall i
+      · exact e
+      · simp [idealOpen, e] at h
+    exact dc_every_byte_authenticated_control b _ _ (hc ▸ hb) hg
+  · intro h
+    subst h
+    rw [hg] at hb
+    cases hb
+    simp [idealOpen]
+
+/-- ACTED UPON IFF AUTHENTIC (stream application packets and probes) -/
+theorem dc_acted_upon_iff_authentic_stream_partial (i : StreamIn) (wf : StreamWF i) (hkp : i.keyPhase = false)
+    (hrel : i.relOffset = 0) (hprobe : i.recovery = true → i.payload = [])
+    (b : List Nat) (c : CryptoCall) (hb : streamCallOfWire false b = some c) :
+    idealOpen [streamSealCall i none] (.ok c) = .ok () ↔ b = encodeStream i := by
+  have hg := genuine_accepted_stream i wf hkp hrel hprobe
+  constructor
+  · intro h
+    have hc : c = streamSealCall i none := by
+      by_cases e : c = streamSealCall i none
+      · exact e
+      · simp [idealOpen, e] at h
+    exact dc_every_byte_authenticated_stream_partial b _ _ (hc ▸ hb) hg
+  · intro h
+    subst h
+    rw [hg] at hb
+    cases hb
+    simp [idealOpen]
+
 /-- COUNTEREXAMPLE (UnknownPathSecret): two packets that differ in the queue id lead to the same
     token comparison — the queue id is not authenticated. Replayed on the real code:
     `mutscan x1 ups 128 <cid> 0 5` reports the queue-id byte as accepted. -/
